@@ -1,6 +1,6 @@
 -------------------------- MODULE Trace_DateTime --------------------------
 (* Mechanism T for DateTime: every date-time accessor of both crates on (d, t):
-     {acc, unit, d, t, inrange, panic, none, days, ms, y, mo, da, h, mi, s, ms3}
+     {acc, unit, d, t, inrange, panic, none, days, ms, y, mo, da, h, mi, s, ms3, subms}
    unit = "ms" | "min"; days/ms and the civil fields come from chrono's getters on the returned
    value.  In range (d in 1..65535, t below 24 h) the instant must be exactly
    1970-01-01 + (d-1) days + t; out of range only "returns without panicking" is required. *)
@@ -15,7 +15,7 @@ Check(e, i) ==
     ELSE LET want == IF e.unit = "ms" THEN Instant(e.d, e.t) ELSE InstantMin(e.d, e.t)
              civ == CivilFromDays(e.d - 1)
              tod == TimeOfDay(want[2])
-         IN /\ IF ~e.none /\ <<e.days, e.ms>> = want THEN TRUE ELSE Bad("C08/" \o e.acc \o "/instant", i)
+         IN /\ IF ~e.none /\ <<e.days, e.ms>> = want /\ e.subms = 0 THEN TRUE ELSE Bad("C08/" \o e.acc \o "/instant", i)      \* exact: no stray nanoseconds below the millisecond
             /\ IF e.none \/ (<<e.y, e.mo, e.da>> = civ /\ <<e.h, e.mi, e.s, e.ms3>> = tod) THEN TRUE ELSE Bad("C08/" \o e.acc \o "/civil_fields", i)
 Init == l = 1
 Next == \/ /\ l <= Len(Rec)
